@@ -346,3 +346,94 @@ Proof.
       exists m. split; [exact Hm|]. destruct (Hoth m M1 M2) as [F1 F2]. rewrite F1, F2. exact Em.
   - intros x Hx. rewrite !offdeg_outdeg by exact Hx. rewrite S1, S4. reflexivity.
 Qed.
+
+(* ------------------------------------------------------------------ the mate search *)
+Lemma common_holes_In n R a b x :
+  In x (common_holes n R a b) <-> (x < n)%nat /\ R x a = 0 /\ R x b = 0.
+Proof.
+  unfold common_holes. rewrite filter_In, in_seq, andb_true_iff, !Z.eqb_eq. split; intros H; [|split; [lia|tauto]].
+  split; [lia|tauto].
+Qed.
+
+Lemma mates_In R h u v : In (u, v) (mates R h) <-> In u h /\ In v h /\ R u v = 1.
+Proof.
+  unfold mates. rewrite in_flat_map. split.
+  - intros (u' & Hu & H). apply in_flat_map in H. destruct H as (v' & Hv & H).
+    destruct (Z.eqb_spec (R u' v') 1) as [E|E]; [|contradiction].
+    destruct H as [H|[]]. inversion H; subst. tauto.
+  - intros (Hu & Hv & E). exists u. split; [exact Hu|]. apply in_flat_map. exists v. split; [exact Hv|].
+    rewrite E. left. reflexivity.
+Qed.
+
+Lemma randint_lt len z : (0 < len)%nat -> (randint len z < len)%nat.
+Proof.
+  intros H. unfold randint.
+  assert (0 <= z mod Z.of_nat len < Z.of_nat len) by (apply Z.mod_pos_bound; lia). lia.
+Qed.
+
+(* one iteration: either nothing happens, or a mate (c,d) (in either orientation) is swapped in *)
+Lemma rbu_loop_cons n k alpha it rest R i j s tr res :
+  rbu_loop n k alpha (it :: rest) R i j s tr = Some res ->
+  (exists s1, rbu_loop n k alpha rest R i j s1 tr = Some res) \/
+  (exists s2 c d i' j',
+     (In (c, d) (mates R (common_holes n R (i it) (j it))) \/ In (d, c) (mates R (common_holes n R (i it) (j it)))) /\
+     patch_loop (seq 0 k) it (j it) c d i j = (i', j') /\
+     rbu_loop n k alpha rest (rbu_swap R (i it) (j it) c d) i' j' s2
+        (tr ++ [mkrbu (i it, j it, c, d) (rbu_swap R (i it) (j it) c d) i' j']) = Some res).
+Proof.
+  cbn [rbu_loop]. destruct s as [|[z|q|l] s1]; try discriminate.
+  destruct (Qgtb q alpha); [intros H; left; eexists; exact H|].
+  cbv zeta.
+  remember (mates R (common_holes n R (i it) (j it))) as ms eqn:Ems.
+  destruct ms as [|m1 msr]; [intros H; left; eexists; exact H|].
+  destruct s1 as [|[z|q1|l1] [|[z2|q2|l2] s2]]; try discriminate.
+  remember (nth (randint (length (m1 :: msr)) z) (m1 :: msr) (O, O)) as mate eqn:Emate.
+  assert (Hin: In mate (m1 :: msr)).
+  { rewrite Emate. apply nth_In. apply randint_lt. cbn [length]. lia. }
+  destruct mate as [u v]. cbn [fst snd].
+  destruct (Qgtb q2 (1 # 2)).
+  - destruct (patch_loop (seq 0 k) it (j it) u v i j) as [i' j'] eqn:EP.
+    intros H. right. exists s2, u, v, i', j'. split; [left; exact Hin|]. split; [exact EP|exact H].
+  - destruct (patch_loop (seq 0 k) it (j it) v u i j) as [i' j'] eqn:EP.
+    intros H. right. exists s2, v, u, i', j'. split; [right; exact Hin|]. split; [exact EP|exact H].
+Qed.
+
+(* what is recorded with every accepted swap *)
+Definition EvI (n k : nat) (Rs : mat Z) (e : rbu_event) : Prop :=
+  LI n k (re_R e) (re_i e) (re_j e) /\
+  (forall x, (x < n)%nat -> offdeg n (re_R e) x = offdeg n Rs x).
+
+Theorem rbu_loop_inv n k alpha Rs : forall its R i j s tr R4 tr4 s4,
+  (forall it, In it its -> (it < k)%nat) ->
+  LI n k R i j -> (forall x, (x < n)%nat -> offdeg n R x = offdeg n Rs x) -> Forall (EvI n k Rs) tr ->
+  rbu_loop n k alpha its R i j s tr = Some (R4, tr4, s4) ->
+  (exists i4 j4, LI n k R4 i4 j4) /\ (forall x, (x < n)%nat -> offdeg n R4 x = offdeg n Rs x) /\
+  Forall (EvI n k Rs) tr4.
+Proof.
+  induction its as [|it rest IH]; intros R i j s tr R4 tr4 s4 Hits HLI Hdeg Htr H.
+  - cbn [rbu_loop] in H. inversion H; subst. split; [exists i, j; exact HLI|]. split; assumption.
+  - assert (Hrest: forall it', In it' rest -> (it' < k)%nat) by (intros; apply Hits; right; assumption).
+    assert (Hit: (it < k)%nat) by (apply Hits; left; reflexivity).
+    apply rbu_loop_cons in H. destruct H as [[s1 H]|(s2 & c & d & i' & j' & Hmate & HP & H)].
+    + exact (IH R i j s1 tr R4 tr4 s4 Hrest HLI Hdeg Htr H).
+    + pose proof HLI as [[Hsym H01 Hdiag] Hedge _ _].
+      destruct (Hedge it Hit) as (Ha & Hb & Hab1).
+      assert (Hm: In c (common_holes n R (i it) (j it)) /\ In d (common_holes n R (i it) (j it)) /\ R c d = 1).
+      { destruct Hmate as [Hm|Hm]; apply mates_In in Hm; destruct Hm as (A & B & C); [tauto|].
+        split; [exact B|]. split; [exact A|]. rewrite Hsym. exact C. }
+      destruct Hm as (Hch & Hdh & Hcd1).
+      apply common_holes_In in Hch. destruct Hch as (Hc & Hca & Hcb).
+      apply common_holes_In in Hdh. destruct Hdh as (Hd & Hda & Hdb).
+      assert (Hac: i it <> c) by (intros E; rewrite <- E, Hdiag in Hca by exact Ha; exact (SENT_not0 Hca)).
+      assert (Had: i it <> d) by (intros E; rewrite <- E, Hdiag in Hda by exact Ha; exact (SENT_not0 Hda)).
+      assert (Hcd: c <> d) by (intros E; rewrite <- E, Hdiag in Hcd1 by exact Hc; exact (SENT_not1 Hcd1)).
+      destruct (patch_spec n k R i j it c d i' j' HLI Hit Hc Hd Hcd1 Hac Had Hcd HP)
+        as (m0 & Hm0 & Hne & Em0 & Ei & Ej & Em0' & Hoth).
+      destruct (step_LI n k R i j it c d i' j' m0 HLI Hit Hm0 Hne Hc Hd Hcd1 Hca Hcb Hda Hdb Em0 Ei Ej Em0' Hoth)
+        as [HLI' Hdeg'].
+      assert (Hdeg2: forall x, (x < n)%nat -> offdeg n (rbu_swap R (i it) (j it) c d) x = offdeg n Rs x)
+        by (intros x Hx; rewrite Hdeg' by exact Hx; apply Hdeg; exact Hx).
+      refine (IH _ _ _ _ _ R4 tr4 s4 Hrest HLI' Hdeg2 _ H).
+      apply Forall_app. split; [exact Htr|]. constructor; [|constructor].
+      split; cbn [re_R re_i re_j]; assumption.
+Qed.
